@@ -319,7 +319,23 @@ def make_write_data(spec: dict, b: Built, scratch: str):
         fields = []
         for key, arr in items:
             fields.append((key, arr.dtype) if arr.ndim == 1 else (key, arr.dtype, arr.shape[1:]))
-        sa = np.zeros(n0, dtype=np.dtype(fields))
+        variant = w.get('struct_variant')
+        if variant == 'aligned':
+            # C-struct-like layout with padding between fields (itemsize > sum of field sizes)
+            sa = np.zeros(n0, dtype=np.dtype(fields, align=True))
+        elif variant == 'view':
+            # the fields are a multi-field selection of a wider table: a view with gaps (hidden columns) in every row
+            wide = [('__hidden_a', '<u2')]
+            for f in fields:
+                wide.append(f)
+                wide.append(('__hidden_%d' % len(wide), '|u1', (3,)))
+            table = np.zeros(n0, dtype=np.dtype(wide))
+            for nm in table.dtype.names:
+                if nm.startswith('__hidden'):
+                    table[nm] = 0xA5
+            sa = table[[f[0] for f in fields]]
+        else:
+            sa = np.zeros(n0, dtype=np.dtype(fields))
         for key, arr in items:
             sa[key] = arr
         return sa
